@@ -172,6 +172,8 @@ def _leaf_grid(pid):
             fails += rt.rt_triangular(tier, count=cnt)
         if pid in ("C01", "C07"):
             fails += rt.rt_simple_fwd(tier, count=cnt)
+        if pid == "C18":
+            fails += rt.rt_c18_flows(tier, count=cnt)
         cnt = [sum(cnt)]
         return dict(evaluations=cnt[0], distinct_nontrivial=cnt[0],
                     rule="real RationalQuadraticSpline (trained-like perturbed raw parameters, intervals with and without 0) at every knot / interval end / float neighbour / bin midpoint / outside point, TriangularAffine with every trainable leaf moved (C01/C02), contract B (round trips, same point, log-det vs autodiff slogdet, inverse log-det) on an object zoo of EVERY buildable bijection class incl. combinators and structured layers, and real elementwise leaf bijections (float64) x parameter sets (positive/negative/small/large scales, several max_val) x boundary-directed points (0, +-1, +-max_val, +-tanh(max_val), their float neighbours, 1e-8, 1e4); each (class, params, point) is distinct",
